@@ -129,7 +129,11 @@ func BuildOwned(mods *pbsubstreams.Modules, req Request, cfg *Config) (*Owned, l
 		cancel()
 		return nil, nil, err
 	}
-	storeConfigs, err := store.NewConfigMap(cacheStore, execGraph.Stores(), execGraph.ModuleHashes(), bstream.GetProtocolFirstStreamableBlock)
+	storesBase := cacheStore
+	if cfg.LateReads != nil {
+		storesBase = cfg.LateReads.Wrap(cacheStore) // the squasher's snapshot reads become schedulable (lateread.go)
+	}
+	storeConfigs, err := store.NewConfigMap(storesBase, execGraph.Stores(), execGraph.ModuleHashes(), bstream.GetProtocolFirstStreamableBlock)
 	if err != nil {
 		cancel()
 		return nil, nil, err
